@@ -77,6 +77,87 @@ def _render(R, E, order):
     return out
 
 
+def _finish_api(R, E, tr, unr, exc, res, order):
+    "after count() ended (normally or not) in an execution with an injected interrupt: classify and render"
+    res['fired'] = tr.fired
+    res['unraisable'] = unr.n
+    if exc is None:
+        if tr.fired is not None and unr.n == 0:
+            # the interrupt was raised inside a package frame, the interpreter reported nothing as
+            # unraisable, and yet count() returned normally: package code discarded the user's interrupt
+            res.update(status='swallowed', actions=canon.canon_actions(E.erecord),
+                       marked=bool(getattr(E, 'intr_logged', False)))
+            return res
+        res.update(status='completed')
+        return res
+    res['count_exc'] = type(exc).__name__
+    res['status'] = 'interrupted'
+    res['renderings'] = _render(R, E, order)
+    res['actions'] = canon.canon_actions(E.erecord)
+    return res
+
+
+def summarise(ref, res):
+    "compact, picklable summary of one interrupted execution: what the accounting and the oracle need"
+    import hashlib      # pylint: disable=import-outside-toplevel
+    h = hashlib.sha1()
+    for rr in res.get('renderings') or ():
+        h.update(rr['name'].encode())
+        h.update((rr.get('text') if isinstance(rr.get('text'), str) else str(rr.get('exc'))).encode('utf-8', 'replace'))
+    return dict(event=res['event'], k=res['k'], mech=res['mech'], order=res['order'], driver=res['driver'],
+                flags=res.get('flags'), status=res.get('status'), fired=res.get('fired'),
+                count_exc=res.get('count_exc'), unraisable=res.get('unraisable'),
+                nmark=sum(1 for a in res.get('actions', ()) if canon.is_marker_canon(a)),
+                viols=check(ref, res), rhash=h.hexdigest()[:12])
+
+
+def sweep_api(R, text, options, event, schedule, ref, budget):
+    """one traced count; at every scheduled event the process forks and the child delivers the interrupt there.
+
+    schedule: {k: [(mech, order), ...]}.  Returns (list of summaries, final canonical actions of the parent run)
+    or (None, reason).  The child's state at event k is exactly that of a fresh run interrupted at k (the count is
+    deterministic), so this is the O(T) equivalent of re-running to every k; run_faulted() remains the replay path
+    and a seeded sample of injections is executed both ways and compared.
+    """
+    import os           # pylint: disable=import-outside-toplevel
+    import pickle       # pylint: disable=import-outside-toplevel
+    try:
+        E = _new_election(R, text, options)
+    except BaseException as e:      # pylint: disable=broad-except
+        return None, 'construct-raises:%s' % type(e).__name__
+    tr = Tracer(R, event=event, sweep=schedule, budget=budget)
+    with unraisable_counter() as unr, sunk_stdout():
+        exc = None
+        try:
+            tr.install()
+            E.count()
+        except BudgetExceeded:
+            if tr.child is None:
+                return None, 'sweep-over-budget'
+            exc = None
+        except BaseException as e:      # pylint: disable=broad-except
+            exc = e
+        finally:
+            tr.remove()
+        if tr.child is not None:
+            # ---- forked child: finish like run_faulted, send the summary, vanish
+            c = tr.child
+            try:
+                res = dict(event=event, k=c['k'], mech=c['mech'], order=list(c['payload']), driver='api')
+                res = _finish_api(R, E, tr, unr, exc, res, c['payload'])
+                data = pickle.dumps(summarise(ref, res))
+            except BaseException as e:  # pylint: disable=broad-except
+                data = pickle.dumps(dict(k=c['k'], status='child-error', err=repr(e)[:300]))
+            try:
+                os.write(c['w'], data) if len(data) < 60000 else os.write(c['w'], pickle.dumps(
+                    dict(k=c['k'], status='child-error', err='summary too large')))
+            finally:
+                os._exit(0)
+    if exc is not None:
+        return None, 'sweep-parent-raises:%s' % type(exc).__name__
+    return tr.results, canon.canon_actions(E.erecord)
+
+
 def run_faulted(R, text, options, event, k, mech, order, driver='api', flags=None, raw=None):
     """count with SIGINT delivered at event k, then render.
 
@@ -104,22 +185,7 @@ def run_faulted(R, text, options, event, k, mech, order, driver='api', flags=Non
                 exc = e
             finally:
                 tr.remove()
-            res['fired'] = tr.fired
-            res['unraisable'] = unr.n
-            if exc is None:
-                if tr.fired is not None and unr.n == 0:
-                    # the interrupt was raised inside a package frame, the interpreter reported nothing as
-                    # unraisable, and yet count() returned normally: package code discarded the user's interrupt
-                    res.update(status='swallowed', actions=canon.canon_actions(E.erecord),
-                               marked=bool(getattr(E, 'intr_logged', False)))
-                    return res
-                res.update(status='completed')
-                return res
-            res['count_exc'] = type(exc).__name__
-            res['status'] = 'interrupted'
-            res['renderings'] = _render(R, E, order)
-            res['actions'] = canon.canon_actions(E.erecord)
-            return res
+            return _finish_api(R, E, tr, unr, exc, res, order)
         # driver == 'main'
         fs = simfs.SimFS()
         fs.put(SIM_PATH, raw if raw is not None else text.encode('utf-8'))
@@ -127,6 +193,16 @@ def run_faulted(R, text, options, event, k, mech, order, driver='api', flags=Non
         opts['path'] = SIM_PATH
         for name in ('report', 'dump', 'json'):
             opts[name] = name in flags
+        scratch = None
+        cwd = None
+        if 'profile' in flags:
+            # Droop.main's profiling path: the count runs under cProfile and profile.out is written to the cwd
+            import os           # pylint: disable=import-outside-toplevel
+            import tempfile     # pylint: disable=import-outside-toplevel
+            opts['profile'] = 1
+            scratch = tempfile.mkdtemp(prefix='droop-c19-prof-')
+            cwd = os.getcwd()
+            os.chdir(scratch)
         out = None
         exc = None
         # observe (from outside) whether count() itself let an exception out: wrap the public method
@@ -157,6 +233,10 @@ def run_faulted(R, text, options, event, k, mech, order, driver='api', flags=Non
         finally:
             if orig_count is not None:
                 ElectionCls.count = orig_count
+            if scratch:
+                import shutil       # pylint: disable=import-outside-toplevel
+                os.chdir(cwd)
+                shutil.rmtree(scratch, ignore_errors=True)
         res['fired'] = tr.fired
         res['unraisable'] = unr.n
         res['flags'] = sorted(flags)
@@ -328,14 +408,17 @@ def vclass(viol):
 # schedule
 # --------------------------------------------------------------------------
 
+#: instants later than this many events are reached by fork-at-instant instead of a re-run from the start
+FORK_FROM = {'line': 4000, 'opcode': 16000}
+
 INTERESTING = {'action', '_fill', 'elect', 'defeat', 'unpend', 'copy', 'postCheck', 'cState', 'cDict', 'as_dict',
                'logAction', 'log', 'newRound', 'count', 'record', 'info'}
 
 PARAMS = {
-    'quick': dict(exh_cap=1500, sample=260, op_cases=0.12, op_stride=9, op_random=40, main_cases=0.2, main_k=36,
-                  sigint=0.01, window_orders=2),
-    'thorough': dict(exh_cap=6000, sample=900, op_cases=0.5, op_stride=1, op_random=200, main_cases=0.3, main_k=120,
-                     sigint=0.02, window_orders=3),
+    'quick': dict(exh_cap=4000, sample=500, op_cases=0.2, op_stride=5, op_random=80, main_cases=0.25, main_k=36,
+                  sigint=0.01, window_orders=2, crosscheck=3, cprofile=0.08),
+    'thorough': dict(exh_cap=20000, sample=2500, op_cases=0.6, op_stride=1, op_random=400, main_cases=0.4, main_k=120,
+                     sigint=0.02, window_orders=3, crosscheck=6, cprofile=0.1),
 }
 
 
@@ -401,8 +484,10 @@ def make_case(seed, idx, tier):
     "deterministic case idx: (election, options, text, raw bytes, per-case PRNG)"
     rnd = rng(seed, 'intr', idx)
     rule = gen.RULES[idx % len(gen.RULES)]
-    small = rnd.random() < (0.7 if tier == 'quick' else 0.4)
-    e, o, text = gen.gen_case(rnd, rule=rule, small=small, slow_ok=(rnd.random() < 0.3))
+    r = rnd.random()
+    large = r > (0.94 if tier == 'quick' else 0.85)
+    small = (not large) and r < (0.66 if tier == 'quick' else 0.4)
+    e, o, text = gen.gen_case(rnd, rule=rule, small=small, slow_ok=(rnd.random() < 0.3), large=large)
     raw = gen.encode_blt(text, rnd)
     return e, o, text, raw, rnd
 
@@ -415,19 +500,16 @@ def site_str(site):
     return "%s:%d" % (site[0], site[2])
 
 
-def run_case(R, seed, idx, tier, only=None):
-    """run every scheduled interrupted execution of case idx; returns a result dict.
-
-    `only`: restrict to one (event, k, mech, order, driver, flags) tuple (replay).
-    """
+def run_case(R, seed, idx, tier):
+    """run every scheduled interrupted execution of case idx; returns a result dict."""
+    import hashlib      # pylint: disable=import-outside-toplevel
     signal.signal(signal.SIGINT, signal.default_int_handler)
     P = PARAMS[tier]
     e, o, text, raw, rnd = make_case(seed, idx, tier)
     out = dict(idx=idx, rule=o['rule'], options=o, explored=False, why=None, execs=0, steps=0,
                viol=[], keys=set(), ref_sites=set(), inj_sites=set(), probes={}, faults={}, T=0, exhaustive=False,
-               sample=None)
+               sample=None, crosschecked=0)
     probes = out['probes']
-    import hashlib      # pylint: disable=import-outside-toplevel
     oh = hashlib.sha1()
 
     def probe(name, n=1):
@@ -440,42 +522,34 @@ def run_case(R, seed, idx, tier, only=None):
     out['T'] = ref['T']
     out['steps'] += ref['T']
     rule = o['rule']
-    for s in ref['site_list']:
-        out['ref_sites'].add(site_str(s))
-    F = ref['actions']
-    nF = len(F)
+    for s_ in ref['site_list']:
+        out['ref_sites'].add(site_str(s_))
+    nF = len(ref['actions'])
 
-    def one(ref_, event, k, mech, order, driver='api', flags=None):
-        res = run_faulted(R, text, o, event, k, mech, order, driver, flags, raw)
+    def account(sm):
+        "book one interrupted execution (summary dict)"
         out['execs'] += 1
-        out['steps'] += k
-        st = res.get('status')
-        oh.update(("%s/%d/%s/%s/%s|" % (event, k, driver, st, (res.get('fired') or {}).get('site'))).encode())
-        for rr in res.get('renderings') or ():
-            oh.update(rr['name'].encode())
-            oh.update((rr.get('text') if isinstance(rr.get('text'), str) else str(rr.get('exc'))).encode('utf-8', 'replace'))
+        st = sm.get('status')
+        oh.update(("%s/%s/%s/%s/%s/%s|" % (sm.get('event'), sm.get('k'), sm.get('driver'), st,
+                                           (sm.get('fired') or {}).get('site'), sm.get('rhash'))).encode())
         if st == 'completed':
-            if res.get('fired') is not None:
-                probe('swallowed_unraisable')
-            else:
-                probe('not_reached')
-            return res
+            probe('swallowed_unraisable' if sm.get('fired') is not None else 'not_reached')
+            return
+        if st not in ('interrupted', 'swallowed'):
+            probe('faulted_' + str(st))
+            return
+        fired = sm['fired']
+        site = fired['site']
+        for viol in sm['viols']:
+            viol = dict(viol)
+            viol.update(idx=idx, event=sm['event'], k=sm['k'], mech=sm['mech'], order=list(sm['order']),
+                        driver=sm['driver'], flags=sm.get('flags'), site=list(site), header=fired['header'])
+            out['viol'].append(viol)
         if st == 'swallowed':
             probe('swallowed_by_package')
-            fired = res['fired']
-            for viol in check(ref_, res):
-                viol = dict(viol)
-                viol.update(idx=idx, event=event, k=k, mech=mech, order=list(order), driver=driver,
-                            flags=sorted(flags) if flags else None, site=list(fired['site']), header=fired['header'])
-                out['viol'].append(viol)
-            return res
-        if st != 'interrupted':
-            probe('faulted_' + str(st))
-            return res
-        fkey = '%s/%s/%s' % (event, mech, driver)
+            return
+        fkey = '%s/%s/%s' % (sm['event'], sm['mech'], sm['driver'])
         out['faults'][fkey] = out['faults'].get(fkey, 0) + 1
-        fired = res['fired']
-        site = fired['site']
         out['inj_sites'].add(site_str(site))
         stack = fired['stack']
         in_action = 'action' in stack
@@ -497,49 +571,83 @@ def run_case(R, seed, idx, tier, only=None):
             probe('inside_generator')
         if fired['nact'] >= nF:
             probe('after_end_action')
-        if res.get('count_exc') not in (None, 'KeyboardInterrupt'):
-            probe('count_exc_' + res['count_exc'])
-        nmark = sum(1 for a in res.get('actions', ()) if canon.is_marker_canon(a))
-        if nmark > 1:
+        if sm.get('count_exc') not in (None, 'KeyboardInterrupt'):
+            probe('count_exc_' + sm['count_exc'])
+        if sm.get('nmark', 0) > 1:
             probe('markers>1')
-        if res.get('unraisable'):
+        if sm.get('unraisable'):
             probe('unraisable_seen')
-        for viol in check(ref_, res):
-            viol = dict(viol)
-            viol.update(idx=idx, event=event, k=k, mech=mech, order=list(order), driver=driver,
-                        flags=sorted(flags) if flags else None, site=list(site), header=fired['header'])
-            out['viol'].append(viol)
-        return res
 
-    if only is not None:
-        event, k, mech, order, driver, flags = only
-        ref_ = ref
-        if event == 'opcode':
-            ref_ = run_reference(R, text, o, 'opcode', REF_BUDGET[tier] * 8)
-            if not ref_['ok']:
-                out['why'] = 'opcode-' + ref_['why']
-                return out
-        res = one(ref_, event, k, mech, tuple(order), driver, set(flags) if flags else None)
-        out['explored'] = True
-        out['last'] = dict(status=res.get('status'), fired=res.get('fired'))
-        return out
+    def sweep(ref_, event, schedule, budget):
+        """execute a schedule {k: [(mech, order)...]}: early instants by plain re-run (cheaper than a fork, whose
+        child pays copy-on-write faults), late instants by the fork-at-instant sweep, with a seeded sample of the
+        forked ones cross-checked against the re-run path"""
+        cut = FORK_FROM[event]
+        late = {k: v for k, v in schedule.items() if k > cut}
+        for k in sorted(schedule):
+            if k > cut:
+                break
+            for (mech, order) in schedule[k]:
+                res = run_faulted(R, text, o, event, k, mech, order, 'api')
+                out['steps'] += k
+                account(summarise(ref_, res))
+        if not late:
+            return True
+        results, final = sweep_api(R, text, o, event, late, ref_, budget)
+        if results is None:
+            probe('sweep_failed_' + str(final))
+            return False
+        if final != ref_['actions']:
+            out['why'] = 'reference-unstable'
+            return False
+        for sm in results:
+            if sm.get('status') in ('child-died', 'child-garbled', 'child-error'):
+                out['why'] = 'sweep-%s' % sm.get('status')
+                out['detail'] = sm.get('err')
+                return False
+            out['steps'] += sm['k']
+            account(sm)
+        # cross-check: the same injection through the plain re-run path must give the same summary
+        pool = [sm for sm in results if sm.get('status') in ('interrupted', 'swallowed')]
+        for sm in (rnd.sample(pool, min(len(pool), P['crosscheck'])) if pool else ()):
+            res2 = run_faulted(R, text, o, event, sm['k'], sm['mech'], tuple(sm['order']), 'api')
+            sm2 = summarise(ref_, res2)
+            out['crosschecked'] += 1
+            same = (sm2['status'] == sm['status'] and sm2['rhash'] == sm['rhash'] and
+                    [vclass(x) for x in sm2['viols']] == [vclass(x) for x in sm['viols']] and
+                    (sm2['fired'] or {}).get('site') == (sm['fired'] or {}).get('site'))
+            if not same:
+                out['why'] = 'sweep-rerun-mismatch'
+                out['detail'] = dict(k=sm['k'], event=event, sweep=[sm['status'], sm['rhash'], sm['fired'], sm['viols']],
+                                     rerun=[sm2['status'], sm2['rhash'], sm2['fired'], sm2['viols']])
+                return False
+        return True
 
     # ---- line level
     ks, exhaustive = line_schedule(ref, P, rnd)
     out['exhaustive'] = exhaustive
     salt = rnd.randrange(len(ORDERS))
     window = (ref['fill_done'] or 0) + 50
+    schedule = {}
     for k in ks:
         mech = 'sigint' if rnd.random() < P['sigint'] else 'raise'
-        one(ref, 'line', k, mech, ORDERS[(k + salt) % len(ORDERS)])
+        ent = [(mech, ORDERS[(k + salt) % len(ORDERS)])]
         if k <= window:
             for j in range(1, P['window_orders']):
-                one(ref, 'line', k, 'raise', ORDERS[(k + salt + 5 * j) % len(ORDERS)])
-    out['sample'] = dict(blt=text, options=o, event='line', k=ks[len(ks) // 2], mech='raise',
-                         order=list(ORDERS[(ks[len(ks) // 2] + salt) % len(ORDERS)]), driver='api',
-                         T=ref['T'], n_injections=len(ks), exhaustive=exhaustive)
+                ent.append(('raise', ORDERS[(k + salt + 5 * j) % len(ORDERS)]))
+        schedule[k] = ent
+    if not sweep(ref, 'line', schedule, REF_BUDGET[tier]):
+        if out['why']:
+            out['dropped_viol'] = len(out['viol'])
+            out['viol'] = []
+            return out
+    kmid = ks[len(ks) // 2]
+    out['sample'] = dict(blt=text, options=o, event='line', k=kmid, mech='raise',
+                         order=list(ORDERS[(kmid + salt) % len(ORDERS)]), driver='api',
+                         T=ref['T'], n_injection_points=len(ks), exhaustive=exhaustive)
 
-    # ---- driver mode
+    # ---- driver mode (plain re-run path)
+    deferred = []
     if R.Droop is not None and rnd.random() < P['main_cases']:
         T = ref['T']
         mk = set()
@@ -553,18 +661,30 @@ def run_case(R, seed, idx, tier, only=None):
         flagsets = [{'report'}, {'dump'}, {'json'}, {'report', 'dump'}, {'report', 'json'}, {'dump', 'json'},
                     {'report', 'dump', 'json'}]
         for j, k in enumerate(sorted(mk)):
-            fl = flagsets[(j + salt) % len(flagsets)]
-            one(ref, 'line', k, 'raise', (), 'main', fl)
+            fl = set(flagsets[(j + salt) % len(flagsets)])
+            if rnd.random() < P['cprofile']:
+                # Droop.main's cProfile path changes the interpreter's instrumentation state (it shifts the
+                # numbering of opcode events for the rest of the process): these runs go last
+                fl.add('profile')
+                deferred.append((k, fl))
+                continue
+            res = run_faulted(R, text, o, 'line', k, 'raise', (), 'main', fl, raw)
+            out['steps'] += k
+            account(summarise(ref, res))
     elif R.Droop is None:
         probe('driver_unavailable')
 
     # ---- opcode level
     if rnd.random() < P['op_cases']:
         ref_op = run_reference(R, text, o, 'opcode', REF_BUDGET[tier] * 8)
-        if ref_op['ok'] and ref_op['actions'] == F:
+        if ref_op['ok'] and ref_op['actions'] == ref['actions']:
             out['steps'] += ref_op['T']
-            for k in opcode_schedule(ref_op, P, rnd):
-                one(ref_op, 'opcode', k, 'raise', ORDERS[(k + salt) % len(ORDERS)])
+            sched = {k: [('raise', ORDERS[(k + salt) % len(ORDERS)])] for k in opcode_schedule(ref_op, P, rnd)}
+            if not sweep(ref_op, 'opcode', sched, REF_BUDGET[tier] * 8):
+                if out['why']:
+                    out['dropped_viol'] = len(out['viol'])
+                    out['viol'] = []
+                    return out
             probe('opcode_cases')
         else:
             probe('opcode_ref_unusable')
@@ -576,6 +696,11 @@ def run_case(R, seed, idx, tier, only=None):
         out['dropped_viol'] = len(out['viol'])
         out['viol'] = []
         return out
+    for (k, fl) in deferred:
+        res = run_faulted(R, text, o, 'line', k, 'raise', (), 'main', fl, raw)
+        out['steps'] += k
+        account(summarise(ref, res))
+        probe('driver_cprofile_runs')
     out['explored'] = True
     out['outcome_hash'] = oh.hexdigest()[:16]
     return out
